@@ -13,14 +13,18 @@ CONSTANTS Windows,   \* set of window sizes explored
           Base,      \* records 0..Base-1 of the epoch were accepted before the session starts
           N,         \* application records Base..Base+N-1
           L,         \* arrival sequence length
-          Strict,    \* 0 = the code (a record exactly W behind the newest is too old); 1 = a window one too small
+          Gap,       \* 0: records Base..Base+N-1.  > 0: two clusters of N/2 records whose first numbers are Gap apart
+                     \* (arrival sequences around the far edge of a large window stay enumerable)
+          Strict,    \* 0 = the code (a record exactly Eff(W) behind the newest is too old); 1 = a window one too small;
+                     \* 2 = the unrounded window of the pinned tree whose bitmap loses bits (see Keep)
           Gen
 
 VARIABLES w, latest, seen, delivered, arrivals
 
 vars == <<w, latest, seen, delivered, arrivals>>
 
-Recs == Base..(Base + N - 1)
+Recs == IF Gap = 0 THEN Base..(Base + N - 1)
+        ELSE (Base..(Base + (N \div 2) - 1)) \cup ((Base + Gap)..(Base + Gap + (N - (N \div 2)) - 1))
 
 Init ==
   /\ w \in Windows
@@ -29,9 +33,18 @@ Init ==
   /\ delivered = <<>>
   /\ arrivals = <<>>
 
+\* the window the replay detector really uses: the configured size rounded up to whole 64-bit words (the "fix:" commit
+\* that works around the detector's bitmap losing the upper bits of a partially used word; a configured window of
+\* 33..63, 97..127, ... let records inside the window be accepted twice).  The properties below speak about the
+\* CONFIGURED window.
+Eff(x) == ((x + 63) \div 64) * 64
+\* Strict = 2, the detector before that commit: when the window slides, the top word of the bitmap is masked with
+\* (1 << (64 - w mod 64)) - 1, and bits at or above w are never read - what survives a slide is this many positions
+Keep(x) == IF (x % 64) = 0 THEN x
+           ELSE (x \div 64) * 64 + (IF (x % 64) < 64 - (x % 64) THEN (x % 64) ELSE 64 - (x % 64))
 \* slidingWindowDetector.checkSeq
 Fresh(s) ==
-  /\ (s <= latest => latest - s < w - Strict)
+  /\ (s <= latest => latest - s < (CASE Strict = 1 -> w - 1 [] Strict = 2 -> w [] OTHER -> Eff(w)))
   /\ s \notin seen
 
 \* one datagram carrying record s arrives: check, (decrypt ok, genuine), deliver, accept
@@ -41,7 +54,7 @@ Arrive(s) ==
   /\ IF Fresh(s)
      THEN /\ delivered' = Append(delivered, s)
           /\ latest' = IF s > latest THEN s ELSE latest
-          /\ seen' = seen \cup {s}
+          /\ seen' = IF Strict = 2 /\ s > latest THEN {x \in seen \cup {s} : s - x < Keep(w)} ELSE seen \cup {s}
      ELSE UNCHANGED <<delivered, latest, seen>>
   /\ UNCHANGED w
 
